@@ -65,4 +65,20 @@ CompatibleLoose(H, startIdx, k) ==
 HaplotypesK(V, startIdx, k) == {H \in SUBSET V : H # {} /\ CompatibleK(H, startIdx, k)}
 HaplotypesLoose(V, startIdx, k) == {H \in SUBSET V : H # {} /\ CompatibleLoose(H, startIdx, k)}
 
+(***************************************************************************)
+(* An alternative-splicing insertion / substitution brings a donor segment  *)
+(* of the gene into the transcript; small variants of the gene that lie in   *)
+(* that segment ("nested", given in donor coordinates) may or may not be     *)
+(* carried by it.  Each compatible subset of the nested variants gives one   *)
+(* alternative form of the record; two forms of one record exclude each      *)
+(* other (they occupy the same span).  nids = ids of the nested variants     *)
+(* carried.  strict: only nested variants that touch neither the first nor   *)
+(* the last donor base (what the tool's lookup considers)                    *)
+(***************************************************************************)
+Expansions(v, isIns, N, strict) ==
+  LET prefix == IF isIns THEN <<v.alt[1]>> ELSE <<>>
+      donor == IF isIns THEN Tail(v.alt) ELSE v.alt
+      usable == IF strict THEN {x \in N : x.start > 0 /\ x.end < Len(donor)} ELSE N
+  IN {[start |-> v.start, end |-> v.end, ref |-> v.ref, alt |-> prefix \o Apply(donor, S), id |-> v.id,
+       nids |-> {x.id : x \in S}] : S \in {T \in SUBSET usable : Compatible(T, 0)}}
 =============================================================================
